@@ -68,6 +68,20 @@ Theorem C15_total : forall m nm nv timeout ops, let g := mkcfg nm nv timeout in
 Proof. exact holds_total. Qed.
 Print Assumptions C15_total.
 
+(* a reader that runs during an allocation (here: from inside the key callback, which allocate_opt calls after the
+   header and key are written and before label and state are) sees exactly the counters stored before it: the
+   enumeration is the old live set and the record being built does not read as allocated *)
+Theorem C15_snapshot : forall m nm nv timeout ops, let g := mkcfg nm nv timeout in
+  cfg_ok g = true -> holds_with g c_snapshot ops (run m ops (mgr0 nm nv timeout)) spec0 = true.
+Proof. exact holds_snapshot. Qed.
+Print Assumptions C15_snapshot.
+
+(* the state that reader looks at is an intermediate state of allocate_opt itself *)
+Theorem C15_snapshot_is_midway : forall t ks label s,
+  allocate_opt t ks label s = bindM (alloc_mid t ks label) (fun id => write_tail id label) s.
+Proof. exact allocate_opt_via_mid. Qed.
+Print Assumptions C15_snapshot_is_midway.
+
 (* a history inside the contract never panics and ends in a state covered by the simulation *)
 Theorem C15_no_panic : forall m nm nv timeout ops, let g := mkcfg nm nv timeout in let s0 := mgr0 nm nv timeout in
   cfg_ok g = true -> in_contract g ops (run m ops s0) spec0 = true ->
@@ -130,8 +144,8 @@ Example C15_example_in_contract :
   cfg_ok (mkcfg 3 3 10) = true /\ cfg_ok (mkcfg 16 16 4611686018427387904) = true /\
   cfg_ok (mkcfg 4194302 16777214 0) = true /\
   in_contract (mkcfg 3 3 10) example_ops (run Debug example_ops (mgr0 3 3 10)) spec0 = true /\
-  map (fun ob => match ob with OStep r _ _ => r | ODump _ => COk (-2) end) (run Debug example_ops (mgr0 3 3 10)) =
+  map (fun ob => match ob with OStep r _ _ => r | ODump _ => COk (-2) | OSnap r _ _ _ => r end) (run Debug example_ops (mgr0 3 3 10)) =
   [COk 0; COk 1; COk 0; COk 0; COk 0; COk 0; COk 2; CErr ValuesFull; COk 0; CErr LabelTooLong; CErr KeyTooLong;
    CErr LabelNotConvertible; CErr LabelTooLong; COk 0; COk (-2)] /\
-  nth 13 (run Debug example_ops (mgr0 3 3 10)) (ODump (dump_of (mgr0 0 0 0))) = OStep (COk 0) (COk 0) (COk [0; 1; 2]).
+  nth 13 (run Debug example_ops (mgr0 3 3 10)) (ODump (dump_of (mgr0 0 0 0))) = OSnap (COk 0) (COk 0) (COk [0; 1; 2]) [(COk [1; 2], COk ST_RECLAIMED)].
 Proof. vm_compute. auto 10. Qed.
